@@ -251,6 +251,10 @@ func (h *httpServer) checkIPWhitelist(addr string) bool {
 		return true
 	}
 	whitelist := h.cfg.GetModuleConfig().RPC.Whitelist
+	// the misspelt key `whitlist` is accepted too, consistent with rpc.InitIPWhitelist
+	if len(whitelist) == 0 {
+		whitelist = h.cfg.GetModuleConfig().RPC.Whitlist
+	}
 	// "*" means allow all IPs, consistent with rpc.InitIPWhitelist
 	if len(whitelist) == 0 || (len(whitelist) == 1 && whitelist[0] == "*") {
 		return true
